@@ -860,6 +860,20 @@ struct DisInterval {
     case 1: return disitv::top();
     case 2: return disitv::bottom();
     case 3: return disitv(); // documented: top
+    case 4:
+    case 5: {
+      // several small disjoint intervals inside [-24,24] (3-6 disjuncts survive the joins):
+      // inner disjuncts are where widening / meet / arithmetic of disjunctions can lose values
+      unsigned n = 2 + t.pick(5);
+      int64_t p = -24 + (int64_t)t.pick(8);
+      disitv d = disitv::bottom();
+      for (unsigned i = 0; i < n; i++) {
+        int64_t len = (int64_t)t.pick(3);
+        d = d | disitv(zitv(zbound(Z(p)), zbound(Z(p + len))));
+        p += len + 2 + (int64_t)t.pick(4);
+      }
+      return d;
+    }
     default: {
       unsigned n = 2 + t.pick(3);
       disitv d(gen_itv(t, small));
